@@ -14,13 +14,28 @@ def WRel (np : Nat) (σ : St) (a : A) : Prop :=
 def Rel (np : Nat) (σ : St) (a : A) : Prop :=
   (∀ x o, σ.env x = some o → o < np → a.may x o) ∧ WRel np σ a ∧ np ≤ σ.next
 
+theorem lookup_filter_ne {β : Type} (l : List (Var × β)) (x y : Var) (h : y ≠ x) :
+    (l.filter (fun p => p.1 != x)).lookup y = l.lookup y := by
+  induction l with
+  | nil => rfl
+  | cons p r ih =>
+    obtain ⟨z, w⟩ := p
+    by_cases hz : z = x
+    · subst hz
+      have : (y == z) = false := by simpa using h
+      simp [List.filter, List.lookup, this, ih]
+    · have hzx : (z != x) = true := by simpa using hz
+      simp only [List.filter, hzx, List.lookup_cons]
+      rw [ih]
+
 theorem raw_set (a : A) (x y : Var) (ps : List Nat) :
-    (a.set x ps).raw y = if y = x then ps else a.raw y := by
+    (a.set x ps).raw y = if y = x then ps.eraseDups else a.raw y := by
   unfold A.raw A.set
   by_cases hyx : y = x
   · subst hyx; simp [List.lookup]
   · have : (y == x) = false := by simpa using hyx
-    simp [List.lookup, this, hyx]
+    simp only [List.lookup_cons, this, hyx, if_false]
+    rw [lookup_filter_ne _ _ _ hyx]
 
 theorem lookup_map_self {β : Type} (l : List Var) (f : Var → β) (x : Var) :
     (l.map (fun y => (y, f y))).lookup x = if x ∈ l then some (f x) else none := by
@@ -54,12 +69,13 @@ theorem raw_mem_vars {a : A} {x : Var} {o : Nat} (h : o ∈ a.raw x) : x ∈ a.v
 
 theorem raw_join (a b : A) (x : Var) (o : Nat) (h : o ∈ a.raw x ∨ o ∈ b.raw x) :
     o ∈ (joinA a b).raw x := by
-  have hx : x ∈ a.vars ++ b.vars := by
+  have hx : x ∈ (a.vars ++ b.vars).eraseDups := by
+    rw [List.mem_eraseDups]
     rcases h with h | h
     · exact List.mem_append_left _ (raw_mem_vars h)
     · exact List.mem_append_right _ (raw_mem_vars h)
   unfold A.raw joinA
-  simp only [lookup_map_self, hx, if_true, Option.getD_some, List.mem_append]
+  simp only [lookup_map_self, hx, if_true, Option.getD_some, List.mem_eraseDups, List.mem_append]
   exact h
 
 theorem may_join_l (a b : A) (x : Var) (o : Nat) (h : a.may x o) : (joinA a b).may x o := by
@@ -163,13 +179,13 @@ theorem w_mono (np : Nat) (s : Stmt) :
     refine ⟨fun o h => ?_, fun o h => h⟩
     rcases h with h | h
     · exact Or.inl h
-    · right; show o ∈ a.raw x ++ a.w; simp [h]
+    · right; show o ∈ (a.raw x ++ a.w).eraseDups; simp [h]
   | ret x =>
     intro a
     refine ⟨fun o h => h, fun o h => ?_⟩
     rcases h with h | h
     · exact Or.inl h
-    · right; show o ∈ a.raw x ++ a.r; simp [h]
+    · right; show o ∈ (a.raw x ++ a.r).eraseDups; simp [h]
   | seq s t ihs iht =>
     intro a
     exact ⟨fun o h => (iht _).1 o ((ihs a).1 o h), fun o h => (iht _).2 o ((ihs a).2 o h)⟩
@@ -272,34 +288,34 @@ theorem sound (np : Nat) (s : Stmt) :
     cases h with
     | raise => exact ⟨(fun h => by cases h), wrel_mono np _ hr.2.1⟩
     | write _ o _ ho =>
-      have : Rel np { σ with written := o :: σ.written } { a with w := a.raw x ++ a.w } := by
+      have : Rel np { σ with written := o :: σ.written } { a with w := (a.raw x ++ a.w).eraseDups } := by
         refine ⟨fun y o' hy ho' => hr.1 y o' hy ho', ⟨?_, fun o' hm ho' => hr.2.1.2 o' hm ho'⟩, hr.2.2⟩
         intro o' hm ho'
         simp at hm
         rcases hm with rfl | hm
         · rcases hr.1 x o' ho ho' with ht | hm'
           · exact Or.inl ht
-          · right; show o' ∈ a.raw x ++ a.w; simp [hm']
+          · right; show o' ∈ (a.raw x ++ a.w).eraseDups; simp [hm']
         · rcases hr.2.1.1 o' hm ho' with ht | hm'
           · exact Or.inl ht
-          · right; show o' ∈ a.raw x ++ a.w; simp [hm']
+          · right; show o' ∈ (a.raw x ++ a.w).eraseDups; simp [hm']
       exact ⟨fun _ => this, this.2.1⟩
   | ret x =>
     intro a σ d σ' h hr
     cases h with
     | raise => exact ⟨(fun h => by cases h), wrel_mono np _ hr.2.1⟩
     | ret _ o _ ho =>
-      have : Rel np { σ with returned := o :: σ.returned } { a with r := a.raw x ++ a.r } := by
+      have : Rel np { σ with returned := o :: σ.returned } { a with r := (a.raw x ++ a.r).eraseDups } := by
         refine ⟨fun y o' hy ho' => hr.1 y o' hy ho', ⟨fun o' hm ho' => hr.2.1.1 o' hm ho', ?_⟩, hr.2.2⟩
         intro o' hm ho'
         simp at hm
         rcases hm with rfl | hm
         · rcases hr.1 x o' ho ho' with ht | hm'
           · exact Or.inl ht
-          · right; show o' ∈ a.raw x ++ a.r; simp [hm']
+          · right; show o' ∈ (a.raw x ++ a.r).eraseDups; simp [hm']
         · rcases hr.2.1.2 o' hm ho' with ht | hm'
           · exact Or.inl ht
-          · right; show o' ∈ a.raw x ++ a.r; simp [hm']
+          · right; show o' ∈ (a.raw x ++ a.r).eraseDups; simp [hm']
       exact ⟨fun _ => this, this.2.1⟩
   | seq s t ihs iht =>
     intro a σ d σ' h hr
